@@ -319,6 +319,7 @@ def run(tier, seed):
     base = [s for s, _ in items]
     # every expression kind in every syntactic slot (most do not resolve: the error paths of every stage are driven)
     items += [(src, "gnest") for _, src in (gnest.two_level() if tier == "quick" else gnest.programs(3))]
+    items += [(src, "gnest") for _, src in gnest.ident_programs()] + [(src, "gnest") for _, src in gnest.type_programs()]
     n_mut = 4000 if tier == "quick" else 150000
     for _ in range(n_mut):
         items.append((gtext.mutate(rng, rng.choice(base), rng.choice([1, 1, 2, 3])), "mutant"))
@@ -346,6 +347,26 @@ def run(tier, seed):
     for v, o in res:
         run.extend(v)
         core.merge_counts(obs, o)
+    # Miri phase: lexer -> parser -> formatter -> parser on short sources (well-formed, mutated, token soup) with the
+    # interpreter watching for undefined behaviour in the code reached (chumsky's unsafe code in particular)
+    miri_info = {"status": "not_run"}
+    import os
+    if tier != "quick" or os.environ.get("PV_MIRI"):
+        from ..mon import miri
+        mrng = core.shard_rng(seed, "C12:miri", 0)
+        short = [s for s, _ in items if len(s) <= 90]
+        pool = mrng.sample(short, min(len(short), 400)) + [gtext.FAMILIES[f](n) for f in sorted(gtext.FAMILIES) for n in (1, 3)]
+        pool = [s for s in pool if len(s) <= 120]
+        n_m = 192 if tier != "quick" else 32
+        msrcs = mrng.sample(pool, min(n_m, len(pool)))
+        mv, mres = miri.run_phase("parse", msrcs, 12 if tier != "quick" else 2, miri_info, "C12")
+        run.extend(mv)
+        for s_, r_ in zip(msrcs, mres):
+            if r_ == "panic":
+                run.add_violation("panic@miri:parse_chain", "parse", {"src": s_, "entry": "pl", "origin": "miri"}, "prql_to_pl / pl_to_prql panicked under Miri")
+            elif r_ == "err:empty":
+                run.add_violation("empty_error", "parse", {"src": s_, "entry": "pl", "origin": "miri"}, "rejected without a reason (under Miri)")
+        miri_info["outcomes"] = {k: sum(1 for r_ in mres if r_ == k) for k in set(r_ for r_ in mres if isinstance(r_, str))}
     # keep one witness per class
     best = {}
     for v in run.violations:
@@ -362,6 +383,7 @@ def run(tier, seed):
         "families": fam,
         "families_run": len(fam),
         "max_n": MAX_N,
+        "miri": miri_info,
         "samples": [items[0][0], items[len(base) + 1][0], items[-1][0], gtext.FAMILIES["nested_case"](3)],
     }
     run.coverage.update(obs)
@@ -370,12 +392,16 @@ def run(tier, seed):
         "requests run on the worker's main thread (8 MiB stack, the default a CLI user gets); stack exhaustion for any family size n <= 4096 is a violation, n > 4096 unexplored",
         "time bound decided on allocation count (deterministic): between successive doublings of a family the count may grow at most 16x and the local exponent w.r.t. input length must stay <= 3.2; the 10-20 s wall watchdog only yields 'inconclusive' for that size",
         "a returned Err must carry at least one error with a non-empty reason",
+        "Miri phase (thorough tier, or PV_MIRI=1): coverage.miri.status is 'ran' only if the interpreter reported its self-test (an out-of-bounds read); otherwise that phase decides nothing. No report on N sources is not a proof of memory safety",
         "hang: a well-formed input (corpus / generated / feature program) under 4 KiB that gets no answer within 10 s is re-run in a fresh process; >= 40 s of CPU time without an answer is a violation (at most 3 such confirmations per shard); watchdogs on malformed inputs stay inconclusive-counted",
     ]
     return run
 
 
 def replay(case):
+    if case.get("miri"):
+        from ..mon import miri
+        return miri.replay(case["miri"], case["src"], "C12")
     w = core.Worker()
     if case.get("src") is None and case.get("family"):
         src = gtext.FAMILIES[case["family"]](case["n"])
